@@ -173,7 +173,7 @@ fn run(rep: &Report) {
     let mut letters = sigma2(&env);
     letters.extend(strict_sensitive(&env));
     let a_id = coin_id(&P1, &PH1, 5);
-    rep.set_rule("bundles: spend A=(P1,PH1,5) carrying every ordered pair (quick: every multiset of <=2; thorough: every multiset of <=2 on A plus <=1 on a second spend B-child / C-sibling, and every multiset of 3 over the strict-sensitive + lock letters) of the interaction letters and the strict-sensitive letters; relation (a) on 4 fork flag sets x 7 strictness subsets; relation (b) on all permutations of conditions within spends x all permutations of spends under 4 flag sets; plus LIMIT_SPENDS at 5999/6000/6001 spends. distinct = distinct bundles");
+    rep.set_rule("bundles: spend A=(P1,PH1,5) carrying every ordered pair (quick: every multiset of <=2; thorough: every multiset of <=2 on A plus <=1 on a second spend B-child / C-sibling, and every multiset of 3 over the strict-sensitive + lock letters) of the interaction letters and the strict-sensitive letters; relation (a) on 4 fork flag sets x 7 strictness subsets; relation (b) on all permutations of conditions within spends x all permutations of spends under 4 flag sets; plus the ephemeral child B carrying every multiset of 2 lock / birth / ASSERT_EPHEMERAL letters; plus LIMIT_SPENDS at 5999/6000/6001 spends. distinct = distinct bundles");
     rep.assume("both sides of each relation are the real parse_spends; summaries are compared after sorting spends by coin id, sorting signature lists and masking the positionally defined FF flag");
     rep.extra("letters", json!(letters.len()));
     let n = letters.len();
@@ -197,6 +197,17 @@ fn run(rep: &Report) {
                     first.push(create_b.clone());
                 }
                 bundles.push(Bundle { spends: vec![a(first), (*p, *ph, *am, vec![letters[j].1.clone()])] });
+            }
+        }
+    }
+    // the ephemeral child B with every multiset of 2 lock / birth / ASSERT_EPHEMERAL letters (incl. the
+    // always-true negative and oversize relative locks): the "no relative condition on an
+    // ephemeral coin" rule must not depend on which of the two comes first
+    {
+        let lock: Vec<usize> = (0..n).filter(|i| { let nme = &letters[*i].0; nme.starts_with("op8") || nme == "op74" || nme == "op75" || nme == "op76" }).collect();
+        for (x, &i) in lock.iter().enumerate() {
+            for &j in lock.iter().skip(x) {
+                bundles.push(Bundle { spends: vec![a(vec![create_b.clone()]), (a_id, PH2, 3, vec![letters[i].1.clone(), letters[j].1.clone()])] });
             }
         }
     }
